@@ -13,7 +13,7 @@ namespace Mqtt.Vocab
 /-- the functions the lock policy names: the contexts of its ordered exceptions and the closures it knows to run on the
     task goroutine (without the `$go` / `$closure` suffix of the access table) -/
 def lockPolicyFuncs : List String :=
-  ["(*BaseClient).serve", "(*BaseClient).Connect", "(*BaseClient).Ping", "publishImpl", "subscribeImpl", "unsubscribeImpl",
+  ["(*BaseClient).serve", "(*BaseClient).Connect",
    "(*RetryClient).SetClient", "(*RetryClient).publish", "(*RetryClient).subscribe", "(*RetryClient).unsubscribe",
    "(*RetryClient).retryWithTimeout"]
 
